@@ -392,6 +392,15 @@ class SymInt:
 
     # --- everything through which a concrete value could leak
     def __hash__(self):
+        # on a path that has decided `self == c` for a constant c the value IS c: hash like c (dict / set keys after an equality test)
+        k = self.e.key() if isinstance(self.e, E) else None
+        for atom, val in EXP.trace:
+            if val and atom.op == 'eq':
+                a, b = atom.args
+                if isinstance(a, int) and isinstance(b, E) and b.key() == k:
+                    return hash(a)
+                if isinstance(b, int) and isinstance(a, E) and a.key() == k:
+                    return hash(b)
         raise Refuse('hash of a symbolic integer (set / dict key)')
 
     def __index__(self):
@@ -572,7 +581,7 @@ class SymSeq:
                 raise Refuse('slice with a step of bytes of unknown length')
             a, b = i.start, i.stop
             if _real_isinstance(a, SymInt) or _real_isinstance(b, SymInt):
-                raise Refuse('slice of received bytes at a symbolic position')
+                raise Unmodelled('slice of received bytes at a symbolic position')
             if self.tail is None:
                 return SymSeq(self.elems[i])
             a = 0 if a is None else a
